@@ -144,7 +144,7 @@ func TestC07(t *testing.T) {
 	rep.Bounds = map[string]any{"worlds": len(worlds), "incarnation_cap": cap}
 	rep.Rule = "BFS to fixpoint in each host world with the event monitor as oracle: callbacks never concurrent; per member join (update)* leave; inside every callback (node lock held) and after every transition the replayed log equals the non-dead records / Members() incl. metadata"
 	rep.Assumptions = []string{"interleavings of two handlers at lock granularity are not part of this check (Engine T)"}
-	if replayT(t, rep, c01TScenarios()) {
+	if replayT(t, rep, c01TScenarios(true)) {
 		return
 	}
 	var rp swimReplay
@@ -206,7 +206,7 @@ func TestC07(t *testing.T) {
 			})
 		}
 		rep.Extra["cluster_executions"] = nExecs
-		runTSet(t, rep, c01TScenarios(), 2, 8000, func(v string) bool { return strings.HasPrefix(v, "event-log") || v == "concurrent-callbacks" })
+		runTSet(t, rep, c01TScenarios(true), 2, 8000, func(v string) bool { return strings.HasPrefix(v, "event-log") || v == "concurrent-callbacks" })
 	}
 	rep.Distinct = rep.States
 	rep.Evaluations = rep.Transitions
